@@ -23,6 +23,7 @@ EMBED = {
     "enum": ["v0", "v1", "v2", "v3", "v4"],             # v4 is NOT declared in the schema (probe only)
     "bool": [False, True, None, None, None],
     "datetime": [100, 3600, 86400, 86400 * 40, 1_700_000_000],
+    "numid": [0, 1, 2, 3, 4], "numid_opt": [0, 1, 2, 3, 4],       # the abstract value itself (small integers)
     # instants around one day: half an hour and an hour apart, then days apart (zones of mixed values span > 48 h,
     # zones of equal values one hour): narrow and wide zones in one segment, without the cost of decade-wide spans
     "datetime2": [1_700_000_000, 1_700_001_800, 1_700_003_600, 1_700_000_000 + 3 * 86400, 1_700_000_000 + 5 * 86400],
